@@ -14,7 +14,7 @@
     and [tx] sits at (integer + o) pixels from the origin, or — floating, [o =
     None] — exactly on the region's edge. *)
 From Coq Require Import ZArith QArith Qround Qabs List Bool Lia.
-From OG Require Import Base.Result Model.Roi Model.MathH Model.FromBbox
+From OG Require Import Base.Result Model.Roi Model.MathH Model.FromBbox Model.FromBboxCases (* cases: only so that the check's build closure keeps them fresh *)
   Proofs.MathHBasics Proofs.MathHSnap Proofs.FromBboxProofs.
 Import ListNotations.
 Open Scope Q_scope.
